@@ -56,6 +56,7 @@ static inline TermMapIt TermMap_find_f(TermMap *m, unsigned int key)
 #define TermMap_find(m, k) (*(TermMapIt[1]){ TermMap_find_f((m), (k)) })
 #define TermMap_end(m) (*(TermMapIt[1]){ { (TermPair *)0 } })
 #define op_ne_TermMapIt_TermMapIt(a, b) ((a)->p != (b)->p)
+#define op_eq_TermMapIt_TermMapIt(a, b) ((a)->p == (b)->p)
 #define TermMapIt_arrow(it) (__CPROVER_assert((it)->p != (TermPair *)0, "std::map iterator dereferenced only before end()"), (it)->p)
 TermList g_newlist; unsigned long g_newlist_calls;
 static inline TermList *TermList_new0(void) { g_newlist.size = 0; g_newlist_calls++; return &g_newlist; }   /* new TermList() */
@@ -134,8 +135,12 @@ void h_TS_getTerms(void) { struct Lattice_TermStorage *s; unsigned int n; Lattic
 
 /* ================= Lattice ================= */
 #define LM (&self->Sites)
-#define KNOWN(l) (0 <= SITEPOS(l) && SITEPOS(l) < LM->n)
-#define POS_VALID(T, p) (KNOWN((T)->SiteLabels.d[p]) && (T)->Orbitals.d[p] < SM_orb(SITEPOS((T)->SiteLabels.d[p])) && (T)->Spins.d[p] < SM_spin(SITEPOS((T)->SiteLabels.d[p])))
+/* g_pos[p] = position in the site map of the label of operator p (n if the map has no such key): ghost copy of the
+ * uninterpreted position function (A3 of sitemap.h), because CBMC rejects function applications in loop invariants */
+long g_pos[TV_MAX];
+#define G_POS_DEF(T) (g_pos[0] == SITEPOS((T)->SiteLabels.d[0]) && g_pos[1] == SITEPOS((T)->SiteLabels.d[1]) && g_pos[2] == SITEPOS((T)->SiteLabels.d[2]) && \
+                      g_pos[3] == SITEPOS((T)->SiteLabels.d[3]) && g_pos[4] == SITEPOS((T)->SiteLabels.d[4]) && g_pos[5] == SITEPOS((T)->SiteLabels.d[5]))
+#define POS_VALID(T, p) (0 <= g_pos[p] && g_pos[p] < LM->n && (T)->Orbitals.d[p] < SM_orb(g_pos[p]) && (T)->Spins.d[p] < SM_spin(g_pos[p]))
 /* every operator position < upto refers to a known site and to an orbital / spin inside that site's range */
 #define VALID_UPTO(T, upto) (((upto) > 0 ==> POS_VALID(T, 0)) && ((upto) > 1 ==> POS_VALID(T, 1)) && ((upto) > 2 ==> POS_VALID(T, 2)) && \
                              ((upto) > 3 ==> POS_VALID(T, 3)) && ((upto) > 4 ==> POS_VALID(T, 4)) && ((upto) > 5 ==> POS_VALID(T, 5)))
@@ -145,6 +150,7 @@ void h_TS_getTerms(void) { struct Lattice_TermStorage *s; unsigned int n; Lattic
 //@contract
 __CPROVER_requires(__CPROVER_is_fresh(self, sizeof(*self)) && __CPROVER_is_fresh(self->Terms, sizeof(*self->Terms)) && SiteMap_wf_nosums(LM))
 __CPROVER_requires(__CPROVER_is_fresh(T, sizeof(*T)) && TERM_WF(T) && !VERIF_thrown && g_newterm_calls == 0 && LT_G.second.size < 1000000000UL)
+__CPROVER_requires(G_POS_DEF(T))
 __CPROVER_assigns(VERIF_thrown, self->Terms->Terms, self->Terms->MaxTermOrder, g_newterm, g_newterm_calls)
 /* C20: rejected with an exception iff some operator refers to an unknown site or to an orbital / spin outside the site's range */
 __CPROVER_ensures(VERIF_thrown == !VALID_UPTO(T, T->N))
@@ -157,10 +163,12 @@ __CPROVER_ensures((!VERIF_thrown && T->Value != 0.0) ==> (g_newterm_calls == 1 &
 __CPROVER_ensures((!VERIF_thrown && T->Value != 0.0 && T->N == LT_G.first) ==> (self->Terms->Terms.gpresent && LT_G.second.size == (__CPROVER_old(self->Terms->Terms.gpresent) ? __CPROVER_old(LT_G.second.size) : 0UL) + 1 &&
      LT_G.second.gelem == (LT_G.second.gp == LT_G.second.size - 1 ? &g_newterm : __CPROVER_old(LT_G.second.gelem))))
 __CPROVER_ensures((!VERIF_thrown && T->N != LT_G.first) ==> (self->Terms->Terms.gpresent == __CPROVER_old(self->Terms->Terms.gpresent) && LT_G.second.size == __CPROVER_old(LT_G.second.size) && LT_G.second.gelem == __CPROVER_old(LT_G.second.gelem)))
+//@loop 1
+__CPROVER_assigns(i, VERIF_thrown)
+__CPROVER_loop_invariant(i <= N && N == T->N && !VERIF_thrown && VALID_UPTO(T, i))
+__CPROVER_decreases(N - i)
 //@end
-/* the validation loop runs over the N <= 6 operators of the term (capacity of the Term model): fully unwound (complete for that domain;
- * a loop invariant would have to mention the uninterpreted position function, which CBMC rejects in invariants) */
-//@harness h_Lattice_addTerm enforce=Lattice_addTerm replace=Lattice_TermStorage_addTerm props=C20 min_obl=100 reach=4 objbits=8 unwind=7
+//@harness h_Lattice_addTerm enforce=Lattice_addTerm replace=Lattice_TermStorage_addTerm props=C20 min_obl=100 reach=4 objbits=8
 void h_Lattice_addTerm(void) { struct Lattice *l; struct Lattice_Term *t; Lattice_addTerm(l, t); if (VERIF_thrown) REACH("thrown"); else if (g_newterm_calls) REACH("stored"); else REACH("ignored"); REACH("exit"); }
 
 //@function Pomerol::Lattice::getSite(std::__cxx11::basic_string<char, std::char_traits<char>, std::allocator<char> > const&) const as Lattice_getSite
@@ -175,3 +183,24 @@ __CPROVER_ensures(!VERIF_thrown ==> __CPROVER_return_value == &SM_gsite)
 //@end
 //@harness h_Lattice_getSite enforce=Lattice_getSite props=C20 min_obl=50 reach=3 objbits=8
 void h_Lattice_getSite(void) { struct Lattice *l; label_t lab; Lattice_getSite(l, lab); if (VERIF_thrown) REACH("thrown"); else REACH("found"); REACH("exit"); }
+
+/* ---- addSite: compiled with -DSM_INSERT_MODEL (std::map operator[] as insertion cell, see stubs/sitemap.h) */
+//@function Pomerol::Lattice::addSite(Pomerol::Lattice::Site*) as Lattice_addSite1
+//@contract
+__CPROVER_requires(__CPROVER_is_fresh(self, sizeof(*self)) && __CPROVER_is_fresh(S, sizeof(*S)) && SM_ins_calls == 0)
+__CPROVER_assigns(SM_ins_slot, SM_ins_label, SM_ins_calls)
+/* C20: the site is stored under its own label (one map cell is written: that of S->Label, with S) */
+__CPROVER_ensures(SM_ins_calls == 1 && SM_ins_label == S->Label && SM_ins_slot == S)
+//@end
+//@function Pomerol::Lattice::addSite(std::__cxx11::basic_string<char, std::char_traits<char>, std::allocator<char> > const&, unsigned short, unsigned short) as Lattice_addSite3
+//@contract
+__CPROVER_requires(__CPROVER_is_fresh(self, sizeof(*self)) && SM_ins_calls == 0 && g_newsite_calls == 0)
+__CPROVER_assigns(SM_ins_slot, SM_ins_label, SM_ins_calls, g_newsite, g_newsite_calls)
+/* a new Site{Label, orbitals, spins} is stored under Label */
+__CPROVER_ensures(SM_ins_calls == 1 && SM_ins_label == Label && SM_ins_slot == &g_newsite && g_newsite_calls == 1)
+__CPROVER_ensures(g_newsite.Label == Label && g_newsite.OrbitalSize == orbitals && g_newsite.SpinSize == spins)
+//@end
+//@harness h_Lattice_addSite1 enforce=Lattice_addSite1 props=C20 min_obl=20 reach=1 objbits=8 defs=-DSM_INSERT_MODEL
+void h_Lattice_addSite1(void) { struct Lattice *l; struct Lattice_Site *s; Lattice_addSite1(l, s); REACH("exit"); }
+//@harness h_Lattice_addSite3 enforce=Lattice_addSite3 props=C20 min_obl=20 reach=1 objbits=8 defs=-DSM_INSERT_MODEL
+void h_Lattice_addSite3(void) { struct Lattice *l; label_t lab; unsigned short o, s; Lattice_addSite3(l, lab, o, s); REACH("exit"); }
